@@ -22,6 +22,7 @@ import Frrs.Validate
 import Frrs.Migrate
 import Frrs.Backup
 import Frrs.Cli
+import Frrs.Pipes
 namespace Frrs.Ops
 open Frrs Frrs.Wire
 
@@ -79,7 +80,9 @@ def renderCli (o : Cli.CliOpts) : String :=
     "shift=" ++ oint o.dateShift, "set=" ++ oint o.dateSet ]
 
 def renderOutcome : Cli.Outcome → String
-  | .ok o => "ok " ++ renderCli o
+  | .ok o => "ok " ++ renderCli o ++
+      "|export=" ++ (match Pipes.exportCmd {} o with | some a => encList a | none => "err") ++
+      "|import=" ++ encList (Pipes.importCmd {} o)
   | .exit c => "exit" ++ toString c
   | .err => "err"
 
